@@ -48,7 +48,7 @@ TAGS = [None, 'a', 'b']
 # the pickle persister's directory is the caller's choice: names with glob/regex metacharacters are directories too
 # (... and a directory that does not exist yet - with or without its parents - is created by the persister)
 DIRNAMES = ['store', 'run[1]', 'a*b?', '[ab]', 'x.pickle', 'auto:fresh', 'auto:fresh/two/levels']
-TAG_SETS = {'str': [None, 'a', 'b'], 'int': [None, 0, 1], 'strempty': [None, '', 'b'], 'strodd': [None, 'step 1', 'step_1']}
+TAG_SETS = {'str': [None, 'a', 'b'], 'int': [None, 0, 1], 'strempty': [None, '', 'b'], 'strodd': [None, 'step 1', 'step_1'], 'strjoin': [None, 'x', '1_x', '1-x']}
 PID_SETS = {
     'int': [11, 22, 33, 44],
     'str': ['p1', 'p2', 'p1x', 'zz'],
@@ -62,6 +62,8 @@ PID_SETS = {
     'strempty': ['', 'a', 'ab', 'b'],
     # the pid that was never saved is too long for a file name: asking for it, or deleting it, is still just a miss
     'strlong': ['p1', 'p2', 'p3', 'x' * 300],
+    # separator-free strings which, joined with the tags of 'strjoin' by '_' or '-', spell the same text for different keys
+    'strjoin': ['job', 'job_1', 'job-1', 'job_1_x'],
 }
 
 
@@ -83,7 +85,7 @@ def enumerate_cases(tier, scope):
     # a save that is refused (the process cannot be serialised right now) is not a save: the previous snapshot stays
     for kind in PID_SETS:
         for dirname in DIRNAMES:
-            yield {'pid_kind': kind, 'dirname': dirname, 'ops': [
+            yield {'pid_kind': kind, 'dirname': dirname, 'memory_loader': dirname == 'store', 'ops': [
                 ['save', 0, None], ['save', 1, 'a'], ['progress', 0], ['poison', 0], ['save', 0, None], ['save', 0, 'b'], ['load', 0, None], ['load', 0, 'b'],
                 ['list_all'], ['list_pid', 0], ['heal', 0], ['save', 0, 'b'], ['load', 0, 'b'], ['delete_pid', 0], ['list_all'], ['load', 1, 'a']]}
     # ids and tags that only differ in non-word characters are different keys
@@ -92,6 +94,11 @@ def enumerate_cases(tier, scope):
         [['save', 1, 'step_1'], ['load', 1, 'step 1'], ['load', 0, 'step_1'], ['delete', 1, 'step 1'], ['load', 1, 'step_1'], ['list_all']],
     ):
         yield {'pid_kind': 'strodd', 'tag_kind': 'strodd', 'ops': seq}
+    # (id, tag) is a pair: keys whose id and tag spell the same text when joined by '_' or '-' are different keys
+    for pa, ta, pb, tb in ((0, '1_x', 1, 'x'), (1, 'x', 0, '1_x'), (0, '1-x', 2, 'x'), (2, 'x', 0, '1-x')):
+        yield {'pid_kind': 'strjoin', 'tag_kind': 'strjoin', 'ops': [
+            ['save', pa, ta], ['progress', pb], ['save', pb, tb], ['load', pa, ta], ['load', pb, tb], ['list_all'], ['list_pid', pa], ['load', 3, None],
+            ['delete', pb, tb], ['load', pa, ta], ['list_all'], ['save', pb, tb], ['delete_pid', pa], ['load', pb, tb], ['list_all']]}
     # falsy tags (0, '') are tags too: they must not collide with the untagged checkpoint
     for tag_kind, falsy in (('int', 0), ('strempty', '')):
         for kind in PID_SETS:
@@ -107,7 +114,7 @@ def enumerate_cases(tier, scope):
 def _cases(draw, tier):
     n = draw(st.integers(1, 40))
     ops = []
-    tag_kind = draw(st.sampled_from(['str', 'str', 'int', 'strempty', 'strodd']))
+    tag_kind = draw(st.sampled_from(['str', 'str', 'int', 'strempty', 'strodd', 'strjoin']))
     tags = TAG_SETS[tag_kind]
     for _ in range(n):
         kind = draw(st.sampled_from(['save', 'save', 'save', 'save', 'load', 'load', 'load', 'list_all', 'list_pid', 'delete', 'delete_pid', 'progress', 'progress', 'run_loaded', 'poison', 'heal']))
@@ -124,10 +131,11 @@ def _cases(draw, tier):
             ops.append([kind, p])
         else:
             ops.append([kind])
-    case = {'pid_kind': draw(st.sampled_from(['int', 'int', 'str', 'uuid', 'strodd', 'intprefix', 'intzero', 'strempty', 'strlong'])), 'tag_kind': tag_kind, 'ops': ops}
+    case = {'pid_kind': draw(st.sampled_from(['int', 'int', 'str', 'uuid', 'strodd', 'intprefix', 'intzero', 'strempty', 'strlong', 'strjoin'])), 'tag_kind': tag_kind, 'ops': ops}
     if draw(st.integers(0, 2)) == 0:
         case['dirname'] = draw(st.sampled_from(DIRNAMES))
     case['two_handles'] = draw(st.booleans())
+    case['memory_loader'] = draw(st.integers(0, 3)) == 0
     return case
 
 
@@ -368,6 +376,25 @@ def execute(case):
                     v('persisters-differ', f"{where}: continued runs differ: memory {results['memory'][1][1]} pickle {results['pickle'][1][1]}")
             if viol:
                 break
+        if case.get('memory_loader') and not viol and 0 not in poisoned:
+            # a memory persister constructed with an object loader names the classes in its checkpoints through it, and
+            # records it, so that the checkpoint can be read back where the default loader does not know the classes
+            from .. import loaders_h
+
+            loaders_h.TagLoader.reset()
+            with_loader = persistence.InMemoryPersister(loader=loaders_h.TagLoader())
+            try:
+                with_loader.save_checkpoint(system.procs[0], 'L')
+                named = loaders_h.TagLoader.identifies
+                back = _run_loaded(with_loader.load_checkpoint(system.procs[0].pid, 'L'))
+                if named == 0 or loaders_h.TagLoader.owned_loads == 0:
+                    v('persister-loader-not-used', f'InMemoryPersister(loader=L): L named {named} classes at save and resolved {loaders_h.TagLoader.owned_loads} of its names at load')
+                plain = _run_loaded(persistence.Bundle(system.procs[0]))
+                if back != plain:
+                    v('persister-loader-changes-run', f'the checkpoint taken through the loader continues as {back}, a plain bundle as {plain}')
+            except Exception as exc:  # noqa: BLE001
+                v('persister-loader-raised', f'{type(exc).__name__}: {str(exc)[:200]}')
+            classes.add('memory-persister-with-loader')
     finally:
         system.close()
         shutil.rmtree(tmpdir, ignore_errors=True)
